@@ -59,6 +59,7 @@ class Plan:
         self.steps = []
         self.fired = 0
         self.probes = []
+        self.staged = []
 
     def hit(self, name):
         """Called at every intercepted I/O step.  Returns 'short' for a short write; raises for faults."""
@@ -128,6 +129,13 @@ class OsProxy:
     def replace(self, a, b):
         # what a concurrent reader would see at this instant (before the attempt)
         self._p.probes.append(os.path.exists(b))
+        # what is about to be published: the staged file as it is on disk at the rename (a reader, or a process that dies
+        # right after the rename, sees exactly this)
+        try:
+            with open(a, "rb") as f_:
+                self._p.staged.append((os.path.basename(str(b)), sha(f_.read())))
+        except OSError:
+            self._p.staged.append((os.path.basename(str(b)), None))
         self._p.hit("replace")
         return os.replace(a, b)
 
@@ -139,8 +147,18 @@ class OsProxy:
         self._p.hit("dirclose")
         return os.close(fd)
 
+    _PURE = {"fspath", "getpid", "getppid", "strerror", "urandom", "getenv", "getcwd", "cpu_count", "stat", "lstat", "fstat", "listdir", "scandir", "umask", "getuid", "getgid",
+             "unlink", "remove", "fsencode", "fsdecode", "get_terminal_size", "times", "walk"}
+
     def __getattr__(self, k):
-        return getattr(os, k)
+        v = getattr(os, k)
+        # any other os-level call the writer makes is an I/O step too (a fault point): e.g. a space reservation added later
+        if callable(v) and not isinstance(v, type) and not k.startswith("_") and k not in self._PURE and k[0].islower():
+            def call(*a, _k=k, _v=v, **kw):
+                self._p.hit("os." + _k)
+                return _v(*a, **kw)
+            return call
+        return v
 
 
 class TempProxy:
@@ -288,6 +306,12 @@ def inproc_case(caller, size, old, at, kind, err, times, ref, sess: Session, ste
             sess.nontrivial.add(chash(case))
         if old and plan.probes and not all(plan.probes) and caller in ("bytes", "text", "json", "rewrite", "rewrite-extend"):
             sess.violation("destination-missing-during-replace-retries", case, {"probes": plan.probes[:8], "outcome": outcome})
+        for dname, dsha in plan.staged:
+            if dname == DESTS[caller][0]:
+                sess.count("staged_files_inspected_at_the_rename")
+                if dsha != ref["new"].get(dname):
+                    sess.violation("staged-file-incomplete-at-the-rename", case, {"dest": dname, "staged_sha": dsha, "outcome": outcome})
+                    break
         dests = DESTS[caller]
         for i, name in enumerate(dests):
             got = after.get(name)
@@ -626,6 +650,7 @@ def main(tier: str, seed: int):
     sess.require("concurrent_reads_classified", 1000)
     sess.require("content_failure_runs", 12)
     sess.require("replacements_with_inode_checked", 50)
+    sess.require("staged_files_inspected_at_the_rename", 200)
     if strace_available():
         sess.require("strace_fault_runs", 20)
     sess.finish()
